@@ -247,6 +247,9 @@ class SecureSession(TCPTransport, _IPSecureTransportLayer):
 
     async def connect(self) -> None:
         """Connect transport."""
+        # an attempt that failed after the handshake must not carry its session key,
+        # `initialized` flag, keepalive task or TCP connection over to this one
+        self.stop()
         await super().connect()
         self._private_key, self.public_key = generate_ecdh_key_pair()
         self._sequence_number = 0
